@@ -41,7 +41,7 @@ def check_stats(env, tag, got, arms, dec, rew, rows):
             env.ob('%s[%s].%s' % (tag, a, k), env.eq(g[k], want[k]))
 
 
-def books(env, spec, N, test_size, batch, ordered=True, A=2, d=1, twin=False, absent=False):
+def books(env, spec, N, test_size, batch, ordered=True, A=2, d=1, twin=False, absent=False, sim_seed=11):
     arms = list(LABELS['int'][:A + (1 if absent else 0)])
     used = arms[:A]
     dec = np.asarray([env.choose('d_%d' % i, used) for i in range(N)])
@@ -50,7 +50,7 @@ def books(env, spec, N, test_size, batch, ordered=True, A=2, d=1, twin=False, ab
     mab = build(env, spec, arms, 0)
     contextual = mab.is_contextual
     sim = Sim()([('b', mab)], dec, rew, ctx if contextual else None, test_size=test_size, is_ordered=ordered,
-                batch_size=batch, is_quick=True, seed=11)
+                batch_size=batch, is_quick=True, seed=sim_seed)
     sim.run()
     test = list(sim.test_indices)
     train = [i for i in range(N) if i not in set(test)]
@@ -114,7 +114,7 @@ def books(env, spec, N, test_size, batch, ordered=True, A=2, d=1, twin=False, ab
 
 
 BOUNDS = {
-    'quick': dict(rows=4, test_size='0.5 and 0.3', split='ordered', batch_size='0, 1, 2', arms='2 (+1 arm absent from the data)',
+    'quick': dict(rows=4, test_size='0.5 and 0.3', split='ordered (+ one shuffled split with test rows in descending order)', batch_size='0, 1, 2', arms='2 (+1 arm absent from the data)',
                   bandits='EpsilonGreedy(0), UCB1 (context-free), LinUCB'),
     'thorough': dict(rows='5-6', split='ordered and shuffled (sklearn train_test_split, concrete seed)',
                      batch_size='including sizes that do not divide the test set'),
@@ -139,8 +139,12 @@ def scenarios(tier):
                                         shards=6, max_paths=100000, setup=dict(no_tv=True),
                                         bounds=dict(bandit=spec[0], rows=N, test_size=ts, batch_size=batch)))
         if not q:
-            out.append(Scenario('%s.shuffled' % spec[0], books, dict(spec=spec, N=5, test_size=0.4, batch=0, ordered=False),
+            out.append(Scenario('%s.shuffled' % spec[0], books, dict(spec=spec, N=5, test_size=0.4, batch=0, ordered=False, sim_seed=1),
                                 weight=300, shards=6, max_paths=100000, setup=dict(no_tv=True)))
+    # shuffled split whose test rows come out in non-ascending order (seed 1 -> rows [3, 2])
+    out.append(Scenario('linucb.batch0.shuffled', books, dict(spec=('linucb', None), N=4, test_size=0.5, batch=0, ordered=False,
+                                                          sim_seed=1), weight=300, shards=4, max_paths=100000,
+                        setup=dict(no_tv=True), bounds=dict(split='shuffled, test rows [3, 2]')))
     out.append(Scenario('ucb1.batch0.ts30', books, dict(spec=('ucb1', None), N=4, test_size=0.3, batch=0), weight=300, shards=4,
                         max_paths=100000, setup=dict(no_tv=True)))
     out.append(Scenario('twin.books', books, dict(spec=('ucb1', None), N=4, test_size=0.5, batch=0, twin=True),
